@@ -243,6 +243,11 @@ func fill(raw interface{}, sv reflect.Value) error {
 		if !present || fr == nil {
 			switch f.Kind() {
 			case reflect.Ptr, reflect.Slice, reflect.Map:
+				if f.Kind() == reflect.Slice && f.Type().Elem().Kind() == reflect.Uint8 && f.Len() > 0 {
+					// a binary field with a declared default: nil would mean "set to
+					// empty" (IsSet compares with the default), so unset = the default stays
+					continue
+				}
 				f.Set(reflect.Zero(f.Type()))
 			}
 			continue
